@@ -212,6 +212,29 @@ def run_all(tier, seed):
         roots = r.sample(made, r.randrange(1, len(made) + 1))
         if r.random() < 0.3:
             roots = roots + [r.choice(roots)]       # repeated root
+        # ---- classes a kernel description depends on (arguments and the return value): the roots of a kernel build
+        if k % 2 == 0:
+            pool = made + [xo.Float64, xo.Int32, xo.Int64]
+            kargs = [xo.Arg(r.choice(pool), pointer=r.random() < 0.2, name=f"a{j}") for j in range(r.randrange(0, 4))]
+            rett = r.choice([None, None] + pool)
+            kern = xo.Kernel(args=kargs, ret=(xo.Arg(rett) if rett is not None else None))
+            from xobjects.context import classes_from_kernels
+            nm = {c.__name__: i for i, c in enumerate(pool)}
+            want = sorted({nm[a.atype.__name__] for a in kargs if hasattr(a.atype, "_gen_c_api")}
+                          | ({nm[rett.__name__]} if rett is not None and hasattr(rett, "_gen_c_api") else set()))
+            kctx = {"component": "topo", "op": "kcls", "args": [a.atype.__name__ for a in kargs], "ret": getattr(rett, "__name__", None)}
+            lines.append("kcls " + (",".join(f"{nm[a.atype.__name__]}:{1 if hasattr(a.atype, '_gen_c_api') else 0}" for a in kargs) or "-")
+                         + " " + (f"{nm[rett.__name__]}:{1 if hasattr(rett, '_gen_c_api') else 0}" if rett is not None else "-"))
+            try:
+                got_cls = sorted({nm[c.__name__] for c in classes_from_kernels({"k": kern})})
+                expect.append("classes " + ",".join(map(str, got_cls)))
+                if got_cls != want:
+                    fails.append(common.Failure("oracle", "C14:kernel-classes", f"kernel(args={kctx['args']}, ret={kctx['ret']}): classes_from_kernels gives {[pool[i].__name__ for i in got_cls]}, the argument and return classes with an API are {[pool[i].__name__ for i in want]}", kctx))
+            except Exception as e:
+                expect.append(f"err {type(e).__name__}")
+                fails.append(common.Failure("oracle", f"C14:kernel-classes-raises:{type(e).__name__}", str(e)[:200], kctx))
+            ctxs.append(kctx)
+            tags["kcls"] += 1
         by_name, idx, univ = closure_universe(roots)
         ctx = {"component": "topo", "op": "sortc", "roots": [c.__name__ for c in roots],
                "universe": {n: {"deps": [d for d in univ[i][0]], "api": univ[i][1], "id": i} for n, i in idx.items()}}
